@@ -2,7 +2,7 @@
 
 Decided: is_open/is_closed/is_unknown are exactly the three cases of state (R1); next_change
 returns the end of the first interval of the open-ended stream and is none exactly from the
-upper bound on (R2); state asks for a non-empty window starting at the instant and defaults to
+upper bound on (R2); state asks for a non-empty window starting at the instant (or its wall clock) and defaults to
 closed (R3). Not decided: 'never earlier, never later' (iterator values), sub-minute behaviour.
 """
 
@@ -143,22 +143,47 @@ def run(ctx, prog, res):
     r2.check(ok_none, {"fn": nc.id, **detail}, "C03.R2:none", "next_change does not map 'end >= DATE_END' (true at equality, false below) of the returned end to None: %s" % detail, lib.where_of(nc))
 
     # R3 -------------------------------------------------------------------------------------
-    r3 = res.rule("C03.R3", "state evaluates iter_range(instant, instant + positive constant) and reports the kind of its first interval, closed when the stream is empty")
+    r3 = res.rule("C03.R3", "state evaluates a window [instant, instant + positive constant) - on the instant itself or on its wall-clock value L::naive(instant) - and reports the kind of its first interval, closed when the stream is empty")
     st = prog.require_fn(OHT + "state")
-    ir = [t for _, t in st.calls() if flow.call_name(t) == OHT + "iter_range"]
+    ir = [t for _, t in st.calls() if flow.call_name(t) in (OHT + "iter_range", OHT + "iter_range_naive")]
     ok = len(ir) == 1
     detail = {}
     if ok:
         a1, a2 = ir[0]["args"][1], ir[0]["args"][2]
-        ok = flow.root_params(st, a1) == {2} and not [c for c in flow.origin_calls(st, a1)]
-        adds = [c for c in flow.origin_calls(st, a2) if flow.call_names(c)[0].endswith("core::ops::arith::Add::add")]
-        ok = ok and len(adds) == 1 and flow.root_params(st, adds[0]["args"][0]) == {2}
+        detail["evaluates"] = flow.call_name(ir[0]).split("::")[-1]
+        # the window starts at the instant passed in, converted at most by the locale's wall-clock view
+        import terms
+        sh1, sh2 = flow.shape(st, a1, depth=8), flow.shape(st, a2, depth=10)
+        ok = re.fullmatch(r"p2|Localize::naive\(p1\.ctx\.locale, p2\)", sh1) is not None
         if ok:
-            deltas = flow.origin_calls(st, adds[0]["args"][1])
-            ok = len(deltas) == 1 and re.search(r"chrono::time_delta::TimeDelta::(minutes|seconds|milliseconds|hours|days|weeks|microseconds|nanoseconds)$", flow.call_name(deltas[0])) is not None \
-                and deltas[0]["args"][0].get("k") == "const" and (deltas[0]["args"][0].get("int") or 0) > 0
+            try:
+                t1, t2 = terms.parse(sh1), terms.parse(sh2)
+            except terms.TermError:
+                ok = False
+        if ok:
+            def is_add(n):
+                return n[0] == "app" and n[1].split("::")[-1] in ("add", "checked_add_signed") and len(n[2]) == 2
+            adds = terms.leaves(t2, is_add)
+            ok = len(adds) == 1 and adds[0][2][0] == t1
             if ok:
-                detail["window"] = "%s(%s)" % (flow.call_name(deltas[0]).split("::")[-1], deltas[0]["args"][0].get("int"))
+                d = adds[0][2][1]
+                ok = d[0] == "app" and re.fullmatch(r"TimeDelta::(minutes|seconds|milliseconds|hours|days|weeks)", d[1]) is not None and len(d[2]) == 1 and d[2][0][0] == "int" and d[2][0][1] > 0
+                if ok:
+                    detail["window"] = "%s(%s)" % (d[1], d[2][0][1])
+                    detail["starts_at"] = sh1
+            # wrappers around the sum may only saturate it (unwrap_or / expect / min)
+            if ok:
+                def wrappers(n, acc):
+                    if is_add(n):
+                        return acc
+                    if n[0] == "app":
+                        acc.append(n[1].split("::")[-1])
+                        for a in n[2]:
+                            if terms.leaves(a, is_add):
+                                return wrappers(a, acc)
+                    return acc
+                ws = wrappers(t2, [])
+                ok = all(w in ("unwrap_or", "expect", "unwrap", "min") for w in ws)
     r3.check(ok, {"fn": st.id, **detail}, "C03.R3:window", "state does not evaluate a non-empty window [instant, instant + positive constant)", lib.where_of(st))
     rets = flow.origin_calls(st, 0)
     ok = len(rets) == 1 and flow.call_name(rets[0]).endswith("Option::<T>::unwrap_or") and flow.const_variants(st, rets[0]["args"][1]) == [KIND + "::Closed"]
